@@ -17,7 +17,8 @@ From Mds Require Import Slice.Subseq Slice.LcsModel Slice.EditModel Slice.EditSp
 
 (* ---- the whole property in one statement ------------------------------------------------ *)
 
-(* For all lhs rhs: LCSFunc returns some L; editScriptFunc returns normally (no index / slice
+(* For all lhs rhs: LCSFunc returns some L, a common subsequence (up to eqb) that no common
+   subsequence exceeds in length (C12); editScriptFunc returns normally (no index / slice
    bound out of range, no loop out of fuel) some es; es is valid; it keeps exactly |L|
    elements, and no valid script keeps more; it is canonical (no empty edit, adjacent edits
    differ in kind, no Drop next to a Copy) and moreover Emit / non-Emit edits strictly
@@ -30,6 +31,8 @@ Theorem C11_edit_script :
     forall lhs rhs,
     exists L es,
       lcs_func T eqb lhs rhs = Some L /\
+      CommonSubseq eqb L lhs rhs /\
+      (forall t, CommonSubseq eqb t lhs rhs -> (length t <= length L)%nat) /\
       edit_script_run eqb lhs rhs = EOk es /\
       ValidScript eqb lhs rhs es /\
       kept (expand lhs es) = length L /\
@@ -69,7 +72,7 @@ Print Assumptions C11_no_panic.
 
 (* the precondition matters: under an irreflexive relation the real code (and the model)
    index out of range *)
-Example C11_no_panic_ex : edit_script_run Nat.ltb [0] [1] = EPanic.
+Example C11_no_panic_ex : edit_script_run Nat.ltb [0] [1; 1] = EPanic.
 Proof. vm_compute. reflexivity. Qed.
 
 (* executing the edits consumes lhs and produces rhs, X/Y the spans at the current offsets *)
